@@ -342,8 +342,10 @@ def run(ctx):
     n = ctx.scale(1500, 60000)
     budget = 40 if ctx.quick else 400
     base = ctx.seed * 1000003 + (ctx.worker or 0) * 100003
+    # the time budget bounds the run on a normal machine; on an overloaded one the floors are still reached (count first, capped)
+    min_here = -(-280 // max(1, ctx.nworkers))
     for i in range(n):
-        if ctx.time_left(budget) < 0:
+        if ctx.time_left(budget) < 0 and (i >= min_here or ctx.time_left(budget * (5 if ctx.quick else 2)) < 0):
             ctx.note("stopped by time budget after %d histories" % i)
             break
         seed = base + i
